@@ -499,3 +499,7 @@ def run(ck):
     check_cast(ck, prog)
     check_null(ck, prog)
     check_allocsz(ck, prog)
+    # invalid input must not leak (rule shared with C10) nor stall the threaded decoder (rule shared with C07)
+    from . import C10, C07
+    C10.check_localown(ck, prog)
+    C07.check_progress(ck, prog)
